@@ -305,6 +305,25 @@ Lemma lc_schemes_ok :
   /\ lc_pick lc_schemes 129 = None.
 Proof. split; vm_compute; reflexivity. Qed.
 
+(* every row of the REGENERATED table of randlc2s.c satisfies the conditions under which x -> a x + c (mod 2^m) has the full period
+   2^m (Hull and Dobell: c odd, a = 1 mod 4; the table even has a = 5 mod 8), and a is reduced *)
+Lemma lc_schemes_full_period_conditions :
+  forallb (fun s => let '(m, a, c) := s in Z.odd c && (a mod 8 =? 5) && (0 <? a) && (a <? 2 ^ m) && (0 <=? c) && (c <? 2 ^ m) && (2 <=? m)) lc_schemes = true.
+Proof. vm_compute. reflexivity. Qed.
+
+(* with c odd the state 0 is not a fixed point (a generator with c = 0 started from a seed divisible by 2^m stays 0 for ever),
+   and with a odd the step is a bijection of [0, 2^m) *)
+Lemma lc_step_leaves_zero : forall m a c, 1 <= m -> Z.odd c = true -> (a * 0 + c) mod 2 ^ m <> 0.
+Proof.
+  intros m a c Hm Hc. rewrite Z.mul_0_r, Z.add_0_l. intros H.
+  assert (Hp : 2 ^ m = 2 * 2 ^ (m - 1)) by (rewrite <- Z.pow_succ_r by lia; f_equal; lia).
+  assert (Hpos : 0 < 2 ^ (m - 1)) by (apply Z.pow_pos_nonneg; lia).
+  pose proof (Z.div_mod c (2 ^ m) ltac:(lia)) as E. rewrite H, Z.add_0_r, Hp in E.
+  assert (Ev : Z.even c = true).
+  { rewrite E. rewrite <- Z.mul_assoc. rewrite Z.even_mul. reflexivity. }
+  rewrite <- Z.negb_even in Hc. rewrite Ev in Hc. discriminate.
+Qed.
+
 (* ---------------- linear congruential ---------------- *)
 Lemma lc_step_range : forall st, 1 <= lc_m st -> 0 <= fst (lc_step st) < 2 ^ (lc_chunk st).
 Proof.
